@@ -157,6 +157,28 @@ class V:
     def __hash__(self):
         return hash(self.term)
 
+    def __lt__(self, o):
+        return self.rt.op(("cmp", "Lt"), self.term, term_of(o))
+
+    def __le__(self, o):
+        return self.rt.op(("cmp", "LtE"), self.term, term_of(o))
+
+    def __gt__(self, o):
+        return self.rt.op(("cmp", "Gt"), self.term, term_of(o))
+
+    def __ge__(self, o):
+        return self.rt.op(("cmp", "GtE"), self.term, term_of(o))
+
+    def __eq__(self, o):
+        return self.rt.op(("cmp", "Eq"), self.term, term_of(o))
+
+    def __ne__(self, o):
+        return self.rt.op(("cmp", "NotEq"), self.term, term_of(o))
+
+    def __iter__(self):
+        # opaque values are not iterated natively (the old sequence protocol through __getitem__ would never stop)
+        raise LogExc(("unsupported", "iteration of an opaque value"))
+
 
 for _n, _d in dict(Add="add", Sub="sub", Mult="mul", Div="truediv", FloorDiv="floordiv", Mod="mod", Pow="pow",
                    LShift="lshift", RShift="rshift", BitOr="or", BitXor="xor", BitAnd="and", MatMult="matmul").items():
